@@ -20,11 +20,12 @@ TECHNIQUE = (
 RULE = (
     "case = 1-3 FASTA files with 1-40 (or 450-1300 small) records '>name description', sequences of 0-200 residues "
     "wrapped at a drawn width, with/without final newline, enzyme in {[KR], K, [FWY], [KR](?!P)}, reverse or shuffle, "
-    "concatenate on/off, numpy global seed; every case is preceded by a call with the opposite mode (history). "
+    "concatenate on/off, numpy global seed, optionally repeated accessions or input entries that already carry the decoy prefix; every case is preceded by a call with the opposite mode (history). "
     "Non-trivial: >=1 protein with >=2 enzymatic peptides of interior length >=2. Distinct = distinct canonical JSON."
 )
 ASSUMPTIONS = [
-    "sequences consist of letters (and '*'), no white space; record names are unique and contain no blanks",
+    "sequences consist of letters (and '*'), no white space; record names contain no blanks (they may repeat, and an "
+    "input entry may already carry the decoy prefix: entries are compared by position, one decoy per input entry)",
     "for look-ahead enzymes only names, length, composition, termini of the target's peptides and round trip are "
     "required (site equality is stated for residue-class enzymes)",
 ]
@@ -58,6 +59,7 @@ def _case(draw, tier):
         "prefix": draw(st.sampled_from(["decoy_", "rev_", "DECOY-"])),
         "np_seed": draw(st.integers(0, 2**31 - 1)),
         "rich": draw(st.booleans()),
+        "dup": draw(st.sampled_from([0, 0, 0, 1, 2])),
     }
 
 
@@ -91,6 +93,7 @@ def check(case):
     rng = np.random.default_rng(case["seed"])
     alpha = "KRPAGM" if case["rich"] else AA
     targets = []
+    ndup = 0
     with scratch_dir() as tmp:
         paths = []
         k = 0
@@ -105,6 +108,13 @@ def check(case):
                     seq = seq[:-1] + "*"
                 name = f"sp|P{k:05d}|PROT{k}"
                 k += 1
+                dup = case.get("dup", 0)
+                if dup and targets and rng.random() < 0.25:
+                    # the same accession listed again (another file / an isoform), or an input entry that already
+                    # carries the decoy prefix of an earlier entry: every entry is still one entry
+                    other = targets[int(rng.integers(0, len(targets)))][0]
+                    name = other if dup == 1 else case["prefix"] + other.replace(case["prefix"], "")
+                    ndup += 1
                 targets.append((name, seq))
                 hdr = ">" + name + (" some description OS=Homo sapiens" if f["desc"] else "")
                 lines.append(hdr)
@@ -174,4 +184,6 @@ def check(case):
         classes.append("multi-file")
     if any(s == "" for _, s in targets):
         classes.append("empty-sequence")
+    if ndup:
+        classes.append("repeated-accession" if case.get("dup") == 1 else "input-entry-with-decoy-prefix")
     return {"nontrivial": rich_prot, "classes": classes, "counters": {"proteins": n, "peptides_checked": npep}}
